@@ -198,6 +198,11 @@ def gen_message(rng, kind=None, framing=None, maxbody=40, seps=None, tail=None, 
     if framing == "chunked":
         version = "HTTP/1.1"
     exp = {"kind": kind, "framing": framing, "version": (1, 1) if version == "HTTP/1.1" else (1, 0)}
+    # tolerated form (RFC 7230 3.5): head lines end in a bare LF.  Recognising LF is optional robustness, not
+    # grammar, so these messages carry no CR / LF bytes in body or tail and no interim response.
+    use_lf = lf if lf is not None else (framing in ("length", "none", "nobody") and rng.random() < 0.12)
+    if use_lf:
+        interim = False
     m = {"kind": kind, "framing": framing, "reqmethod": "GET"}
     head = bytearray()
     if kind == "request":
@@ -229,6 +234,8 @@ def gen_message(rng, kind=None, framing=None, maxbody=40, seps=None, tail=None, 
     payload = b""
     if framing == "length":
         body = body_bytes(rng, maxbody)
+        if use_lf:
+            body = body.replace(b"\r", b"r").replace(b"\n", b"n")
         cl = str(len(body))
         if rng.random() < 0.1:
             cl = "0" + cl
@@ -257,6 +264,8 @@ def gen_message(rng, kind=None, framing=None, maxbody=40, seps=None, tail=None, 
         ih = gen_headers(rng, 1, seps=seps)
         pre = b"HTTP/1.1 100 Continue\r\n" + render_headers(ih) + CRLF
         m["interim"] = True
+    if tail is None and use_lf:
+        tail = rng.choice([b"", b"G", b"GET /nex", b"HTTP/1."])
     if tail is None:
         tail = b""
         if framing != "close" and rng.random() < 0.6:
@@ -266,12 +275,9 @@ def gen_message(rng, kind=None, framing=None, maxbody=40, seps=None, tail=None, 
     exp["headers"] = {n.lower(): v for n, s, v in hdrs}
     exp["body"] = body
     exp["trails"] = {n.lower(): v for n, s, v in trailers}
-    if lf if lf is not None else (framing in ("length", "none", "nobody") and not pre and rng.random() < 0.08):
-        # tolerated form (RFC 7230 3.5): head lines end in a bare LF; kept away from CR / LF bytes in the body
-        # because recognising LF is optional robustness, not part of the grammar
-        if b"\r" not in payload and b"\n" not in payload and b"\r" not in tail and b"\n" not in tail:
-            raw = bytes(head).replace(b"\r\n", b"\n") + payload
-            m["lf"] = True
+    if use_lf:
+        raw = bytes(head).replace(b"\r\n", b"\n") + payload
+        m["lf"] = True
     m.update(raw=raw, tail=tail, exp=exp, hdrs=hdrs, chunks=chunks, trailers=trailers,
              seps=sorted(set(s for n, s, v in hdrs + trailers)))
     return m
@@ -382,3 +388,119 @@ def mutate(rng, data, msg=None):
         i = rng.randint(0, n)
         data[i:i] = b"\x00"
     return bytes(data), op
+
+
+# ---------------------------------------------------------------------------
+# server-sent events: stream generator and an independent reference parser
+# (https://html.spec.whatwg.org/multipage/server-sent-events.html, "event
+# stream interpretation")
+
+SSE_EOLS = {"lf": ("\n",), "crlf": ("\r\n",), "cr": ("\r",), "mixed": ("\n", "\r\n", "\r")}
+
+
+def sse_text(rng, maxlen=8):
+    pool = ["a", "b", "c", "x", "y", "z", "0", "1", " ", ":", ": ", "é", "日", "{", "}", "\"", "=", "\t", "\U0001F600"]
+    return "".join(rng.choice(pool) for _ in range(rng.randint(0, maxlen)))
+
+
+def gen_sse(rng, nevents=None, policy=None, maxlen=8, empty_data=None):
+    """Returns dict(raw=bytes, lines=[(text, eol)], policy=..).  The stream ends
+    with the beginning of a comment line that never completes, so that the
+    last complete line's terminator is determined for every correct
+    incremental parser (a final lone CR could still become CRLF otherwise)."""
+    policy = policy or rng.choice(["lf", "crlf", "cr", "mixed", "mixed"])
+    eols = SSE_EOLS[policy]
+    lines = []
+    nevents = nevents if nevents is not None else rng.randint(1, 4)
+    has_empty = False
+    for _ in range(nevents):
+        block = []
+        kind = rng.random()
+        if empty_data if empty_data is not None else kind < 0.04:
+            block.append("data:" + rng.choice(["", " "]))      # one empty data line: an event with data ''
+            has_empty = True
+        elif kind < 0.12:
+            block.append("event: " + token(rng, 1, 5))         # no data: nothing dispatched, name forgotten
+        elif kind < 0.18:
+            block.append(":" + sse_text(rng, maxlen))          # comment only
+        else:
+            nd = rng.choice([1, 1, 2, 2, 3])
+            for i in range(nd):
+                style = rng.random()
+                txt = sse_text(rng, maxlen)
+                if i == 0 and nd == 1 and not txt.strip(" "):
+                    txt = "v" + txt                            # keep single data lines non-empty (see above)
+                if style < 0.7:
+                    block.append("data: " + txt)
+                elif style < 0.85:
+                    block.append("data:" + txt)
+                elif nd > 1:
+                    block.append("data")                       # field without colon: empty value
+                else:
+                    block.append("data:  " + txt)              # only one blank is removed
+        extras = []
+        if rng.random() < 0.4:
+            extras.append("event: " + rng.choice([token(rng, 1, 6), "é" + token(rng, 1, 3), "a b", ""]))
+        if rng.random() < 0.4:
+            extras.append("id: " + rng.choice([token(rng, 1, 4), "", "1", "é:1", str(rng.randint(0, 999))]))
+        if rng.random() < 0.25:
+            extras.append("retry: " + rng.choice([str(rng.randint(0, 99999)), "soon", "12ms", "", "1.5"]))
+        if rng.random() < 0.25:
+            extras.append(":" + sse_text(rng, maxlen))
+        if rng.random() < 0.15:
+            extras.append(rng.choice(["foo: bar", "datax: 1", "Data: upper", " data: leading blank", "ID: 9"]))
+        for e in extras:
+            block.insert(rng.randint(0, len(block)), e)
+        block.append("")                                        # dispatch
+        if rng.random() < 0.15:
+            block.append("")
+        lines.extend(block)
+    out = [(ln, rng.choice(eols)) for ln in lines]
+    raw = "".join(ln + e for ln, e in out).encode("utf-8") + b":k"
+    return {"raw": raw, "lines": out, "policy": policy, "has_empty_data_event": has_empty}
+
+
+def sse_reference(raw):
+    """Independent interpretation of a complete byte stream.  Returns
+    (events [(id, name, data)], last event id, retry or None)."""
+    import re
+    text = raw.decode("utf-8")
+    if text.startswith("﻿"):
+        text = text[1:]
+    lines = re.split("\r\n|\n|\r", text)
+    lines = lines[:-1]                      # the final fragment is not terminated
+    events = []
+    last_id = ""
+    retry = None
+    name = ""
+    data = ""
+    for line in lines:
+        if line == "":
+            if data == "":
+                name = ""
+                continue
+            if data.endswith("\n"):
+                data = data[:-1]
+            events.append((last_id, name, data))
+            name = ""
+            data = ""
+            continue
+        if line.startswith(":"):
+            continue
+        if ":" in line:
+            field, value = line.split(":", 1)
+            if value.startswith(" "):
+                value = value[1:]
+        else:
+            field, value = line, ""
+        if field == "event":
+            name = value
+        elif field == "data":
+            data += value + "\n"
+        elif field == "id":
+            if "\x00" not in value:
+                last_id = value
+        elif field == "retry":
+            if value and all(c in "0123456789" for c in value):
+                retry = int(value)
+    return events, last_id, retry
